@@ -53,13 +53,17 @@ Section JsonProofs.
     pack marshal H f tc fa s at_ o now = (s', Ok d m) ->
     exists e, In e (s_store s') /\ same_key (t_key tc) d e = true /\
               unmarshal (e_bytes e) = Some (san_manifest m) /\
-              (clean_manifest m -> unmarshal (e_bytes e) = Some m).
+              (clean_manifest m -> unmarshal (e_bytes e) = Some m) /\
+              (forall m', unmarshal (e_bytes e) = Some m' -> kind_mt (m_kind m') = d_mt d).
   Proof.
     intros W P.
+    assert (MT : d_mt d = kind_mt (m_kind m)).
+    { apply (ok_consistent marshal H H_empty) in P as (ann & evs & _ & _ & -> & _). reflexivity. }
     destruct (ok_descriptor_describes_stored marshal H H_empty _ _ _ _ _ _ _ _ _ _ W P)
       as (_ & _ & _ & e & I & K & _ & B).
     destruct (B H_inj) as (EB & _). exists e. split; auto. split; auto.
-    rewrite EB, json_roundtrip. split; auto. intros C. now rewrite C.
+    rewrite EB, json_roundtrip. split; auto. split; [intros C; now rewrite C|].
+    intros m' [= <-]. now rewrite MT.
   Qed.
 
   (* PackManifest: the media types it validated are clean, whatever the caller passed *)
@@ -135,3 +139,53 @@ Proof.
   split; [vm_compute; reflexivity|]. split; [reflexivity|]. split; [reflexivity|]. split; [reflexivity|].
   vm_compute. right. left. reflexivity.
 Qed.
+
+(* ---------- instances used by the Examples of Properties/C19.v ---------- *)
+Lemma lossy_H_empty : lossy_H empty_json = empty_json_digest.
+Proof. reflexivity. Qed.
+
+Lemma lossy_H_injective x y : lossy_H x = lossy_H y -> x = y.
+Proof.
+  unfold lossy_H.
+  destruct (str_eqb x empty_json) eqn:Ex; destruct (str_eqb y empty_json) eqn:Ey.
+  - apply str_eqb_spec in Ex, Ey. congruence.
+  - discriminate.
+  - discriminate.
+  - now intros [= ->].
+Qed.
+
+Definition ex_titled_ann : list kv := [(AnnotationTitle, b "cfg.json")].
+Definition ex_named_entry (content_digest : str) : entry :=
+  mkEntry (b "application/octet-stream") content_digest 2 [] (b "cfg.json").
+
+(* file store: the config is written as the named file cfg.json; when that name is already taken
+   by other content the store refuses (ErrDuplicateName) and Pack fails; when it is taken by "{}"
+   itself Exists answers true and nothing is pushed but the manifest *)
+Lemma ex_file_store :
+  (exists s' d m, pack lossy_marshal lossy_H FV10 (mkTcfg true KFile) None (init_state []) []
+                       (mkOpts None None [] None ex_titled_ann) [50] = (s', Ok d m) /\
+                  map e_name (s_store s') = [b "cfg.json"; []]) /\
+  (exists s', pack lossy_marshal lossy_H FV10 (mkTcfg true KFile) None (init_state [ex_named_entry (b "sha256:other")]) []
+                   (mkOpts None None [] None ex_titled_ann) [50] = (s', Err EInjected) /\ length (s_events s') = 2%nat) /\
+  (exists s' d m, pack lossy_marshal lossy_H FV10 (mkTcfg true KFile) None (init_state [ex_named_entry empty_json_digest]) []
+                       (mkOpts None None [] None ex_titled_ann) [50] = (s', Ok d m) /\ length (s_events s') = 2%nat).
+Proof.
+  split; [eexists _, _, _; split; vm_compute; reflexivity|].
+  split; [eexists; split; vm_compute; reflexivity|].
+  eexists _, _, _; split; vm_compute; reflexivity.
+Qed.
+
+(* registry: "{}" held as a blob does not answer for a config typed as a manifest (other namespace) *)
+Lemma ex_registry_namespace :
+  stored KNamespace [mkEntry MediaTypeEmptyJSON empty_json_digest 2 empty_json []]
+         (mkDesc MediaTypeImageManifest empty_json_digest 2 [] [] []) = false /\
+  stored KDigest [mkEntry MediaTypeEmptyJSON empty_json_digest 2 empty_json []]
+         (mkDesc MediaTypeImageManifest empty_json_digest 2 [] [] []) = true.
+Proof. vm_compute. split; reflexivity. Qed.
+
+(* a fault plan: the third storage operation (the manifest push) fails after the config was stored *)
+Lemma ex_fault_plan :
+  exists s', pack lossy_marshal lossy_H FV11 (mkTcfg true KDigest) (Some 2%nat) (init_state []) (b "application/vnd.example")
+                  (mkOpts None None [] None []) (b "2024-02-29T12:00:00Z") = (s', Err EInjected) /\
+             length (s_events s') = 3%nat /\ length (s_store s') = 1%nat.
+Proof. eexists. vm_compute. repeat split; reflexivity. Qed.
